@@ -83,3 +83,69 @@ fn c18_write_file_is_a_byte_copy() {
     core::mem::forget(r);
     core::mem::forget(cfg);
 }
+
+// ---- system info stream when reading the CPU information fails (C11: "all other streams intact") ----
+// Real systeminfo_stream::write and real dumper_cpu_info::write_cpu_information; the environment is
+// scripted: uname (os_information) returns a fixed string, /proc/cpuinfo cannot be opened (A) or is
+// empty (B: File::open gives a dummy handle, BufRead::read_line reports EOF, so no entry is found).
+pub fn stub_os_information() -> (minidump_common::format::PlatformId, String) {
+    (minidump_common::format::PlatformId::Linux, String::from("Linux 6"))
+}
+pub fn stub_open_fails<P: AsRef<std::path::Path>>(_p: P) -> std::io::Result<std::fs::File> {
+    Err(std::io::Error::from(std::io::ErrorKind::NotFound))
+}
+fn systeminfo_cpu_failure() {
+    use crate::errors::SectionSystemInfoError;
+    use crate::linux::sections::systeminfo_stream;
+    use error_graph::ErrorList;
+    let mut buf = Buffer::with_capacity(160);
+    let pre: [u8; 4] = kani::any();
+    buf.write_all(&pre);
+    let mut errs: ErrorList<SectionSystemInfoError> = ErrorList::default();
+    let dirent = match systeminfo_stream::write(&mut buf, &mut errs) {
+        Ok(d) => d,
+        Err(e) => {
+            core::mem::forget(e);
+            panic!("a CPU-information failure must not fail the system info stream");
+        }
+    };
+    assert_eq!(dirent.stream_type, crate::minidump_format::MDStreamType::SystemInfoStream as u32);
+    assert_eq!(dirent.location.rva, 4);
+    assert_eq!(dirent.location.data_size, 56);
+    let b = 4usize;
+    assert_eq!(rd_u16(&buf, b), 9, "processor architecture is AMD64 whatever happened to /proc/cpuinfo");
+    assert_eq!(rd_u32(&buf, b + 20), 0x8201, "platform id: Linux");
+    let csd = rd_u32(&buf, b + 24) as usize;
+    assert_eq!(csd, b + 56, "OS version string follows the record");
+    assert_eq!(rd_u32(&buf, csd), 14, "\"Linux 6\" = 7 UTF-16 units");
+    assert_eq!(rd_u16(&buf, csd + 4), b'L' as u16);
+    assert_eq!(rd_u16(&buf, csd + 4 + 12), b'6' as u16);
+    assert_eq!(errs.len(), 1, "exactly one soft error");
+    let ok = match errs.iter().next() {
+        Some(SectionSystemInfoError::WriteCpuInformationFailed(_)) => true,
+        _ => false,
+    };
+    assert!(ok, "reported as WriteCpuInformationFailed");
+    kani::cover!(true, "reached");
+    core::mem::forget(errs);
+}
+#[kani::proof]
+#[kani::unwind(20)]
+#[kani::stub(crate::linux::dumper_cpu_info::os_information, crate::verif::c18_streams::stub_os_information)]
+#[kani::stub(std::fs::File::open, crate::verif::c18_streams::stub_open_fails)]
+#[kani::stub(std::fmt::format, crate::verif::env::stub_format)]
+#[kani::stub(std::vec::Vec::resize, crate::verif::env::stub_vec_resize)]
+fn c11_systeminfo_cpuinfo_unreadable() {
+    systeminfo_cpu_failure();
+}
+#[kani::proof]
+#[kani::unwind(20)]
+#[kani::stub(crate::linux::dumper_cpu_info::os_information, crate::verif::c18_streams::stub_os_information)]
+#[kani::stub(std::fs::File::open, crate::verif::c08_modules::stub_file_open_dummy)]
+#[kani::stub(std::io::BufRead::read_line, crate::verif::c08_modules::StubReadLine::stub_read_line)]
+#[kani::stub(<std::os::fd::OwnedFd as core::ops::Drop>::drop, crate::verif::c08_modules::stub_ownedfd_drop)]
+#[kani::stub(std::fmt::format, crate::verif::env::stub_format)]
+#[kani::stub(std::vec::Vec::resize, crate::verif::env::stub_vec_resize)]
+fn c11_systeminfo_cpuinfo_empty() {
+    systeminfo_cpu_failure();
+}
